@@ -74,6 +74,7 @@ func verifC09Window(scenario int, point string, onRoot, more bool) string {
 //	4 a callback that runs two pooled children in turn: the first returns, the second is endless
 //	5 a callback whose pooled child returns, followed by an endless loop on the root
 //	6 an endless loop at call depth 2 under live try statements at depths 0 and 1
+//	7 child VMs nested two deep, 8 three deep (after a returning sibling)
 //
 // point (first placement), two (0: one placement; 1: a second placement
 // follows). The occurrence of the first placement and the whole second
@@ -177,6 +178,13 @@ func VerifC09Abort() {
 		src = `global cb2; f := func() { return 1 }; h := func() { for {} }; return cb2(f, h)`
 	case 5:
 		src = `global cb; f := func() { return 1 }; cb(f); for {}`
+	case 7:
+		// child VMs nested two deep (a callback's script function is itself
+		// inside a callback); the innermost runs for ever
+		src = `global (cb, mark); f := func() { mark(); for {} }; g := func() { return cb(f) }; return cb(g)`
+	case 8:
+		// nested three deep, the middle one after a returning sibling
+		src = `global (cb, cb2, mark); f := func() { mark(); for {} }; g := func() { return cb(f) }; one := func() { return 1 }; h := func() { return cb2(one, g) }; return cb(h)`
 	case 6:
 		src = `global mark; f := func() { mark(); for {} }; g := func() { try { return f() } catch e { return 0 } finally { } }; h := func() { try { return g() } finally { } }; return h()`
 	}
